@@ -474,7 +474,7 @@ def mostek_jump(obj, nn):
 def mostek_jump(obj, cc, nn):
     # DD/FD prefix are ignored
     obj.cond = env.CONDITION[cc]
-    obj.operands = [obj.cond[0], env.cst(nn, 16)]
+    obj.operands = [env.cst(nn, 16)]
     obj.type = type_control_flow
 
 
@@ -488,8 +488,6 @@ def mostek_jump(obj, e):
     # DD/FD prefix are ignored
     disp = env.cst(e, 8)
     obj.operands = [disp]
-    if hasattr(obj, "cond"):
-        obj.operands.insert(0, obj.cond[0])
     obj.type = type_control_flow
 
 
@@ -517,7 +515,7 @@ def mostek_call(obj, nn):
 def mostek_call(obj, cc, nn):
     # DD/FD prefix are ignored
     obj.cond = env.CONDITION[cc]
-    obj.operands = [obj.cond[0], env.cst(nn, 16)]
+    obj.operands = [env.cst(nn, 16)]
     obj.type = type_control_flow
 
 
@@ -534,7 +532,7 @@ def mostek_ret(obj):
 def mostek_ret(obj, cc):
     # DD/FD prefix are ignored
     obj.cond = env.CONDITION[cc]
-    obj.operands = [obj.cond[0]]
+    obj.operands = []
     obj.type = type_control_flow
 
 
